@@ -44,7 +44,7 @@ func RandOptions(r *fw.Rand) lab.Options {
 	for i := 0; i < ns; i++ {
 		signers = append(signers, lab.NewAcct(i).Addr.String())
 	}
-	o.Ent = enttypes.Params{EntSigners: strings.Join(signers, ","), Denom: lab.Denom, MinAccepts: uint64(r.Range(1, ns)), DecisionTimeLimit: uint64(r.PickU64([]uint64{5, 20, 100, 1000}))}
+	o.Ent = enttypes.Params{EntSigners: strings.Join(signers, ","), Denom: lab.Denom, MinAccepts: uint64(r.Range(1, ns)), DecisionTimeLimit: uint64(r.PickU64([]uint64{5, 20, 100, 1000, 5, 20, 100, 1000, 5, 20, 100, 1000, ^uint64(0), 1<<63 + 5}))}
 	fee := func() uint64 { return r.PickU64([]uint64{1, 7, 10, 100, 1000, 25_000}) }
 	lim := func() (uint64, uint64) {
 		d := r.PickU64([]uint64{1, 2, 3, 5})
